@@ -1754,9 +1754,35 @@ impl Transaction {
                 if next_row_id.is_some() {
                     let new_version = current_manifest.map(|m| m.version + 1).unwrap_or(1);
 
-                    // Build a map of original fragment ID -> original fragment for lookup
-                    let original_frags_map: std::collections::HashMap<u64, &Fragment> =
-                        existing_fragments.iter().map(|f| (f.id, f)).collect();
+                    // The created-at version of every row of the fragments this update takes
+                    // rows from, keyed by row id (a stable row id is not an address, so it says
+                    // nothing about the fragment or the position of the row).
+                    let mut created_at_by_row_id: std::collections::HashMap<u64, u64> =
+                        std::collections::HashMap::new();
+                    for orig_frag in existing_fragments.iter().filter(|f| {
+                        removed_fragment_ids.contains(&f.id)
+                            || updated_fragments.iter().any(|uf| uf.id == f.id)
+                    }) {
+                        let Some(lance_table::format::RowIdMeta::Inline(data)) =
+                            &orig_frag.row_id_meta
+                        else {
+                            continue;
+                        };
+                        let Ok(orig_row_ids) = lance_table::rowids::read_row_ids(data) else {
+                            continue;
+                        };
+                        let created_versions: Vec<u64> = match &orig_frag.created_at_version_meta {
+                            Some(created_meta) => match created_meta.load_sequence() {
+                                Ok(seq) => seq.versions().collect(),
+                                Err(_) => continue,
+                            },
+                            // No metadata on the original fragment, default to version 1
+                            None => vec![1; orig_frag.physical_rows.unwrap_or(0)],
+                        };
+                        for (row_id, created_version) in orig_row_ids.iter().zip(created_versions) {
+                            created_at_by_row_id.insert(row_id, created_version);
+                        }
+                    }
 
                     for fragment in new_fragments.iter_mut() {
                         // For update operations with RewriteRows mode:
@@ -1782,35 +1808,15 @@ impl Transaction {
                             let mut created_at_versions = Vec::with_capacity(physical_rows);
 
                             for row_id in row_ids.iter() {
-                                // Row ID format: upper 32 bits = fragment ID, lower 32 bits = row offset
-                                let orig_frag_id = row_id >> 32;
-                                let row_offset = (row_id & 0xFFFFFFFF) as usize;
-
-                                // Look up the original fragment
-                                if let Some(orig_frag) = original_frags_map.get(&orig_frag_id) {
-                                    // Get created_at version from original fragment's metadata
-                                    let created_version = if let Some(created_meta) =
-                                        &orig_frag.created_at_version_meta
-                                    {
-                                        // Load and index into the version sequence
-                                        match created_meta.load_sequence() {
-                                            Ok(seq) => {
-                                                let versions: Vec<u64> = seq.versions().collect();
-                                                versions.get(row_offset).copied().unwrap_or(1)
-                                            }
-                                            Err(_e) => {
-                                                1 // Default to version 1 on error
-                                            }
-                                        }
-                                    } else {
-                                        // No metadata on original fragment, default to version 1
-                                        1
-                                    };
-                                    created_at_versions.push(created_version);
-                                } else {
-                                    // Original fragment not found, default to version 1
-                                    created_at_versions.push(1);
-                                }
+                                // Rows that already existed keep their created-at version.  Row
+                                // ids we do not find were inserted by this transaction (e.g. the
+                                // inserted rows of a merge insert).
+                                created_at_versions.push(
+                                    created_at_by_row_id
+                                        .get(&row_id)
+                                        .copied()
+                                        .unwrap_or(new_version),
+                                );
                             }
 
                             // Build version metadata from the collected versions
